@@ -276,8 +276,17 @@ impl<B: WordWrite> WordWrite for Recording<B> {
         Ok(())
     }
     fn flush(&mut self) -> Result<(), B::Error> {
+        BACKEND_FLUSHES.with(|c| c.set(c.get() + 1));
         self.inner.flush()
     }
+}
+
+thread_local! {
+    /// number of flush() calls that reached a recording backend (on this thread)
+    pub static BACKEND_FLUSHES: std::cell::Cell<u64> = const { std::cell::Cell::new(0) };
+}
+pub fn backend_flushes() -> u64 {
+    BACKEND_FLUSHES.with(|c| c.get())
 }
 
 /// A word sink that keeps nothing but what the recorder logs ("recording backend").
